@@ -97,3 +97,87 @@ register(Contract(
     loops={0: Loop(invariant=["self.owning_manager.number_of_scan_failures >= old(self.owning_manager.number_of_scan_failures)",
                               "self.owning_manager is old(self.owning_manager)"])},
 ))
+
+# ---------------------------------------------------------------------------------------------------------
+# C07: order, once-each, nothing lost
+PSF = "pymarkdown/plugin_manager/plugin_scan_failure.py::PluginScanFailure."
+LT = ("(a.line_number < b.line_number or (a.line_number == b.line_number and (a.column_number < b.column_number or "
+      "(a.column_number == b.column_number and a.rule_id < b.rule_id))))")
+
+
+def lt(a, b):
+    return LT.replace("a.", a + ".").replace("b.", b + ".")
+
+
+register(Contract(
+    key=PSF + "__lt__", properties=["C07"],
+    # the documented order: by line, then column, then rule id
+    ensures=["result == " + lt("self", "other")],
+    pure=True,
+))
+
+SORTED_FAILURES = Assumed(
+    "sorted[PluginScanFailure]", params=["xs"], returns="List[PluginScanFailure]", fresh_result=True,
+    ensures=["len(result) == len(xs)",
+             # g_inv: where each element of xs went (a bijection: in range, injective, and lengths are equal)
+             "len(g_inv) == len(xs)",
+             "forall(lambda k: 0 <= g_inv[k] and g_inv[k] < len(xs) and result[g_inv[k]] is xs[k], 0, len(xs))",
+             "forall(lambda a, b: implies(a < b, g_inv[a] != g_inv[b]), 0, len(xs))",
+             "forall(lambda j, k: implies(j < k, not " + lt("result[k]", "result[j]") + "), 0, len(xs))"],
+    effects=["g_sorted = result"], modifies=["g_inv.$list"], ghost={"g_inv": "List[int]"},
+    why="sorted(xs): a permutation of xs (same length; ghost g_inv is the position each element moved to), and no later element is __lt__ an earlier "
+        "one; __lt__ of PluginScanFailure is proved to be the (line, column, rule id) order (contract of PluginScanFailure.__lt__)")
+
+_rot = REGISTRY_KEY = PSC + "report_on_triggered_rules"
+from pyvc.spec import REGISTRY as _REG
+del _REG[PSC + "report_on_triggered_rules"]
+REP = "self.__reported"
+register(Contract(
+    key=PSC + "report_on_triggered_rules", properties=["C07", "C12", "C15"],
+    ghost={"g_logged": "List[PluginScanFailure]", "g_sorted": "List[PluginScanFailure]", "g_inv": "List[int]"},
+    calls={"sorted": SORTED_FAILURES,
+           "self.owning_manager.log_scan_failure": (PM + "log_scan_failure", ["g_logged.append(scan_failure)"])},
+    raises=[],
+    ensures=[f"len({REP}) == 0",      # nothing is reported twice: the list is cleared
+             "self.owning_manager.number_of_scan_failures >= old(self.owning_manager.number_of_scan_failures)",
+             # every collected failure is handed to the manager exactly once, in (line, column, rule id) order
+             f"len(g_logged) == old(len(g_logged)) + old(len({REP}))",
+             f"forall(lambda j: 0 <= g_inv[j] and g_inv[j] < old(len({REP})) and g_logged[old(len(g_logged)) + g_inv[j]] is old({REP}[j]), 0, old(len({REP})))",
+             f"forall(lambda a, b: implies(a < b, g_inv[a] != g_inv[b]), 0, old(len({REP})))",
+             "forall(lambda j, k: implies(j < k, not " + lt("g_logged[k]", "g_logged[j]") + f"), old(len(g_logged)), old(len(g_logged)) + old(len({REP})))",
+             "forall(lambda j: g_logged[j] is old(g_logged[j]), 0, old(len(g_logged)))"],
+    modifies=[f"{REP}.$list", "number_of_scan_failures", "$presentation_state", "g_logged.$list", "g_sorted", "g_inv.$list"],
+    loops={0: Loop(index="idx", invariant=[
+        "self.owning_manager.number_of_scan_failures >= old(self.owning_manager.number_of_scan_failures)",
+        "self.owning_manager is old(self.owning_manager)", f"{REP} is old({REP})",
+        "reported_and_sorted is g_sorted", "len(g_logged) == old(len(g_logged)) + idx",
+        "forall(lambda m: g_logged[m] is g_sorted[m - old(len(g_logged))], old(len(g_logged)), old(len(g_logged)) + idx)",
+        "forall(lambda j: g_logged[j] is old(g_logged[j]), 0, old(len(g_logged)))",
+        f"len(g_sorted) == old(len({REP}))",
+        f"forall(lambda j: 0 <= g_inv[j] and g_inv[j] < old(len({REP})) and g_sorted[g_inv[j]] is old({REP}[j]), 0, old(len({REP})))",
+        f"forall(lambda a, b: implies(a < b, g_inv[a] != g_inv[b]), 0, old(len({REP})))",
+        "forall(lambda j, k: implies(j < k, not " + lt("g_sorted[k]", "g_sorted[j]") + f"), 0, old(len({REP})))",
+        "same_except('line_number') and same_except('column_number') and same_except('rule_id')",
+    ])},
+))
+
+RULE = "scan_failure.rule_id.lower()"
+LINE = "scan_failure.line_number"
+SUPPRESSED = (f"((len(self.__document_pragmas) > 0 and {LINE} in self.__document_pragmas and {RULE} in self.__document_pragmas[{LINE}]) or "
+              f"exists(lambda q: self.__document_pragma_ranges[q][0] <= {LINE} and {LINE} <= self.__document_pragma_ranges[q][1] "
+              f"and {RULE} in self.__document_pragma_ranges[q][2], 0, len(self.__document_pragma_ranges)))")
+register(Contract(
+    key=PM + "log_scan_failure", properties=["C07", "C11"],
+    ghost={"g_printed": "List[Any]"},
+    # C11: a failure is printed  <=>  no pragma of the document covers (its line, its rule id)
+    ensures=[f"len(g_printed) == old(len(g_printed)) + (0 if old({SUPPRESSED}) else 1)",
+             f"self.number_of_scan_failures == old(self.number_of_scan_failures) + (0 if old({SUPPRESSED}) else 1)"],
+    raises=[],
+    modifies=["self.number_of_scan_failures", "$presentation_state", "g_printed.$list"],
+    types={"self.__document_pragma_ranges": "List[Tuple[int, int, Set[str]]]", "self.__document_pragmas": "Dict[int, Set[str]]"},
+    loops={0: Loop(index="idx", invariant=[
+        f"forall(lambda q: not (self.__document_pragma_ranges[q][0] <= {LINE} and {LINE} <= self.__document_pragma_ranges[q][1] "
+        f"and {RULE} in self.__document_pragma_ranges[q][2]), 0, idx)",
+        "rule_id is " + RULE, "len(g_printed) == old(len(g_printed))", "self.number_of_scan_failures == old(self.number_of_scan_failures)",
+    ])},
+))
